@@ -102,7 +102,28 @@ def corpus(ctx, prop):
     }
 
 
+def rename_invariance(ctx, prop, mod):
+    """self-test of the rules, evidence only: re-run them on the facts with every local variable
+    consistently renamed (JBV_ANON=locals).  A violation there means a rule depends on an identifier
+    (a defect of the checker, not of the repository); the count is recorded, never gating."""
+    sub = Ctx(prop, ctx.tier, ctx.seed)
+    os.environ["JBV_ANON"] = "locals"
+    try:
+        mod.run(sub)
+    except Exception as e:  # noqa: BLE001
+        ctx.units["self_test_rename_invariance"] = {"error": repr(e)[:200]}
+        return
+    finally:
+        os.environ.pop("JBV_ANON", None)
+    ctx.units["self_test_rename_invariance"] = {
+        "mode": "all local variables renamed in the facts",
+        "obligations": len(sub.obligations),
+        "rules_that_fired_only_because_of_the_rename": sorted({v["key"] for v in sub.violations}),
+    }
+
+
 def extend(ctx, prop, mod):
+    rename_invariance(ctx, prop, mod)
     other_configs(ctx, prop, mod)
     witnesses(ctx, prop)
     corpus(ctx, prop)
